@@ -33,6 +33,7 @@ func (x *ctx) runtimeCells() []llh.CellFn {
 	}
 	cells = append(cells, func() { x.cellInvalidChar("ddp_char_string_verkettet") })
 	cells = append(cells, func() { x.cellInvalidChar("ddp_string_char_verkettet") })
+	cells = append(cells, x.cellInvalidCharReplace)
 	return cells
 }
 
@@ -146,6 +147,57 @@ func (x *ctx) cellInvalidChar(fn string) {
 			}
 		}
 		x.finish(h, res, func(f *llh.Failure) (string, bool) { return x.replayInvalidChar(h, f, fn, n, ch) })
+		h.Close()
+	}
+}
+
+// cellInvalidCharReplace: storing an arbitrary Buchstabe (also one that is not a Unicode scalar
+// value: 'n als Buchstabe' accepts every Zahl) into a Text stays memory safe - it either replaces
+// the character or stops with a Laufzeitfehler.
+func (x *ctx) cellInvalidCharReplace() {
+	for _, n := range []int{1, 2} {
+		h := x.newH(fmt.Sprintf("rt/ddp_replace_char_in_string_anychar_n%d", n), x.levels[0])
+		c := h.C
+		t := asciiText(h, "t", n)
+		ch := h.Var("ch", 32)
+		res := h.Run("ddp_replace_char_in_string", []llse.Val{h.Ptr(t.Hdr), {E: ch}, {E: c.BV(64, 1)}})
+		for _, s := range res {
+			h.On(s)
+			if s.Term == llse.TermReturn {
+				if s.UninitReads > 0 {
+					h.Fail("reads uninitialised memory for a Buchstabe that is not a Unicode scalar value")
+				}
+				audit(h, s, []Root{{Obj: t.Hdr, Kind: "text", Name: "text"}}, "after ddp_replace_char_in_string")
+			}
+		}
+		if len(res) == 0 {
+			x.r.EngineFailf("%s: no path", h.Cell)
+		}
+		x.finish(h, res, func(f *llh.Failure) (string, bool) {
+			m := h.Refine(f, nil, nil)
+			var cv uint64 = 0xD800
+			if m != nil {
+				if v, ok := llh.ValOf(m, ch); ok {
+					cv = v
+				}
+			}
+			src := fmt.Sprintf(`#include <stdio.h>
+#include <string.h>
+#include "DDP/ddptypes.h"
+extern void ddp_replace_char_in_string(ddpstring*, ddpchar, ddpint);
+int main(void) {
+	ddpstring t;
+	ddp_string_from_constant(&t, "%s");
+	ddp_replace_char_in_string(&t, (ddpchar)0x%x, 1);
+	printf("cap %%lld\n", (long long)t.cap);
+	ddp_free_string(&t);
+	return 0;
+}
+`, "ab"[:n], cv)
+			nr := llh.RunCValgrind(x.env, "c05_replace", src)
+			txt := fmt.Sprintf("Buchstabe value %#x stored at position 1 of a text of %d characters\nnative under valgrind: exit=%d err=%q\nstdout:\n%s\nstderr:\n%s\n--- driver ---\n%s", cv, n, nr.Exit, nr.Err, nr.Stdout, clipS(nr.Stderr, 3000), src)
+			return txt, nr.Err == "" && (nr.Exit == 99 || nr.Exit >= 128 || nr.Exit < 0)
+		})
 		h.Close()
 	}
 }
